@@ -92,3 +92,13 @@ Definition check_case_c04_raw (trie : string) (fuel : nat) (keys : list (string 
   end
   && forallb (fun q => let text := hex_bytes (fst q) in
                        (length (snd q) =? S (length text))%nat && check_raw_offsets a text 0 (snd q)) queries.
+
+(* ---------- a lexicon read from several files ----------
+   DictBuilder::read_lexicon appends the records of a file to the entries read so far (LexiconReader::read_record pushes;
+   nothing is cleared, sorted or de-duplicated between calls), write_index then numbers ALL entries.  Reading files f1 .. fn one
+   after the other with a running word number: state = (index so far, next word number, number of indexed words so far) *)
+Definition read_file (st : list group * N * N) (f : list row) : list group * N * N :=
+  match st with
+  | (m, i, cnt) => (index_rows m i cnt f, i + N.of_nat (length f), cnt + N.of_nat (length (filter (fun r => builder_indexes (snd r)) f)))
+  end.
+Definition read_files (fs : list (list row)) : list group * N * N := fold_left read_file fs ([], 0, 0).
